@@ -94,6 +94,14 @@ Fixpoint ids (f : forest) : list N :=
   | FCons i _ k r => i :: ids k ++ ids r
   end.
 
+(* the same with the values attached *)
+Definition node := (N * value)%type.
+Fixpoint nodes (f : forest) : list node :=
+  match f with
+  | FNil => []
+  | FCons i v k r => (i, v) :: nodes k ++ nodes r
+  end.
+
 Fixpoint fsize (f : forest) : nat :=
   match f with
   | FNil => O
